@@ -134,6 +134,35 @@ pub fn cross_decode(ctx: &mut Ctx, case: &DictCase) {
             }
         }
     }
+    // `ord_to_term` computed by the model from the BYTES of the real file (footer → index region →
+    // block-address store → byte range → frame → value block skipped → front-coded keys)
+    {
+        let n = case.keys.len() as u64;
+        let mut probes: Vec<u64> = vec![0, 1, n / 2, n.saturating_sub(1), n, n + 7];
+        for l in layout.iter().skip(1).take(2) {
+            probes.push(l.0.saturating_sub(1));
+            probes.push(l.0);
+        }
+        let resp = ctx.model.ask(&format!("C15 o2t {} {} {}", case.vk, hex(&file), nats_field(&probes)));
+        let got: Vec<&str> = resp.split(',').collect();
+        if got.len() != probes.len() {
+            ctx.report.violation("model", "C15:file-ord-to-term-model", format!("model answered {} for {} probes", &resp[..resp.len().min(60)], probes.len()), cj.clone());
+        } else {
+            for (o, g) in probes.iter().zip(got.iter()) {
+                let want = if *o < n { format!("k{}", hex(&case.keys[*o as usize])) } else { "-".to_string() };
+                let zblock = layout.iter().rposition(|l| l.0 <= *o).map(|i| blocks[i] == "Z").unwrap_or(false);
+                if *g == "Z" && zblock {
+                    ctx.report.count("file-ord-to-term:zstd-block-skipped");
+                    continue;
+                }
+                ctx.report.count("file-ord-to-term:compared");
+                if *g != want {
+                    ctx.report.violation("model", "C15:file-ord-to-term-model", format!("ord_to_term({o}) computed by the Lean model from the bytes of a real {} file gives {g}, the dictionary holds {want}", case.vk), cj.clone());
+                    break;
+                }
+            }
+        }
+    }
     // reverse direction (void values): blocks encoded by the model, read by the real Reader,
     // and byte-equal to what the real writer wrote
     if case.vk == "void" {
